@@ -41,7 +41,7 @@ def _session(args):
             scn = mod.generate_from_rng(rnd, ns.repo_root, _Ctx.tier)
             res, timed_out = engine.execute_limited(mod, ns, scn)
             state["n"] += 1
-            if timed_out:
+            if timed_out:  # True (wall limit) or "error" (set-up failed): inconclusive
                 state["timeouts"] += 1
                 return
             if res.violations:
